@@ -39,3 +39,4 @@ import Rtsp.Props.Bridge.Ntp
 #print axioms Rtsp.Bridge.Ntp.encParts_eq
 #print axioms Rtsp.Bridge.Ntp.encPack_eq
 #print axioms Rtsp.Bridge.Ntp.ntpTimeDiffGo_eq
+#print axioms Rtsp.Bridge.Time.multiplyAndDivide_eq_of_rates
